@@ -47,7 +47,11 @@ func suite(quick bool) hlib.Suite {
 			// on a tick, and between ticks: a third, three quarters and exactly half of a tick further
 			peaks := []time.Duration{0, R / 4, R / 2, 14 * R / 24, R - f, (R / 4).Truncate(f) + f/3, (R / 2).Truncate(f) + 3*f/4, (14 * R / 24).Truncate(f) + f/2}
 			sigmas := []time.Duration{f, 3 * f, R / 10, R / 4, R, 10 * R, 100 * R, 1000 * R, 10000 * R}
-			for _, vol := range volumes {
+			vols := volumes
+			if !quick {
+				vols = append(append([]float64{}, volumes...), 3, 50, 12345, 1e6, 1e8)
+			}
+			for _, vol := range vols {
 				for _, peak := range peaks {
 					if peak%f == 0 || peak < f {
 						peak = peak.Truncate(f) // a tick exactly at the peak
